@@ -1074,6 +1074,14 @@ func (env *Env) evalCall(e *Expr) CV {
 			}
 		}
 		panic(cerr("iterpos(): no range iterator in scope"))
+	case "typearg":
+		// typearg(i): the type tag of the i-th type argument of the generic callee whose contract is being applied
+		// (for a type parameter of the function under verification: its symbolic tag)
+		n := int(e.Args[0].Lit.Int64())
+		if n >= len(r.curTypeArgs) {
+			panic(cerr("typearg(%d): the callee has %d type arguments", n, len(r.curTypeArgs)))
+		}
+		return CV{V: Scalar{r.e.typeArgTag(r.curTypeArgs[n])}, T: types.Typ[types.Uint64]}
 	case "loopdec":
 		// loopdec(N): the value the decreases measure of (enclosing) loop N had at its header
 		n := int(e.Args[0].Lit.Int64())
